@@ -311,6 +311,12 @@ let () =
         let s0 = rinit n32 (z_of_dec x0) (z_of_dec y0) (z_of_dec w) (z_of_dec h) in
         let sa = rrun32 s0 (calls_of_toks ta) in
         let na = List.length sa.r_log in
+        (* B may start with "SR x0 y0 w h": SetRasterizer with another rectangle before B (the fresh Renderer gets that one) *)
+        let (sa, s0, tb) = match tb with
+          | "SR" :: a0 :: b0 :: c0 :: d0 :: r ->
+              (set_rasterizer n32 sa (z_of_dec a0) (z_of_dec b0) (z_of_dec c0) (z_of_dec d0),
+               rinit n32 (z_of_dec a0) (z_of_dec b0) (z_of_dec c0) (z_of_dec d0), r)
+          | _ -> (sa, s0, tb) in
         let sb = rrun32 sa (calls_of_toks tb) in
         let rec drop n l = if n = 0 then l else match l with _ :: r -> drop (n - 1) r | [] -> [] in
         let sel s = Printf.sprintf " | cs=%d ns=%d" (int_of_z s.r_csel) (int_of_z s.r_nsel) in
@@ -319,6 +325,13 @@ let () =
         let fresh = String.concat " " (List.map rcall_str sf.r_log) ^ sel sf in
         reused ^ " || " ^ fresh
     | _ -> failwith "REUSE");
+  (* sharing between Encoders: history A on one zero-value Encoder, then history B on another; B's observations
+     are those of B alone, and A's bytes are not disturbed by B *)
+  reg "ESHARE" (fun a ->
+    let rec split acc = function "|" :: r -> (List.rev acc, r) | x :: r -> split (x :: acc) r | [] -> (List.rev acc, []) in
+    let (_, tb) = split [] a in
+    let (_, o2) = enc_run enc_zero (acts_of_toks tb) in
+    String.concat " " (List.filter_map str_of_obs o2) ^ " | A-STABLE");
   reg "EREUSE" (fun a ->
     let rec split acc = function "|" :: r -> (List.rev acc, r) | x :: r -> split (x :: acc) r | [] -> (List.rev acc, []) in
     let (ta, tb) = split [] a in
@@ -388,7 +401,12 @@ let () =
   reg "SPD" (fun a ->
     match a with
     | [adj; tr; hx] ->
-        let (cs, o) = set_path_data (transform_of_tok tr) (str_of_hex hx) (z_of_dec adj) in
+        (* a "/"-separated history of SetTransform calls: the last one is in force *)
+        let segs = String.split_on_char '/' tr in
+        let last = List.hd (List.rev segs) in
+        (* SetTransform() without arguments installs the identity (Concat of nothing); never calling it leaves none *)
+        let trf = if List.length segs > 1 && last = "-" then Some (concat []) else transform_of_tok last in
+        let (cs, o) = set_path_data trf (str_of_hex hx) (z_of_dec adj) in
         let os = match o with
           | PDOk -> "OK" | PDErrVerb v -> "ERRVERB" ^ dec_of_z v | PDErrNumber -> "ERRNUM" | PDPanic -> "PANIC" in
         os ^ " | " ^ str_of_calls cs
